@@ -562,6 +562,7 @@ func rule157(r *core.Run) {
 		r.Check(bad == "" && detHash, "R15.7", key(fname(r, mp), "record name is deterministic"), r.P.Pos(mp.Pos()), "name = f(bucket, key) with a fixed hash function", "the metadata record name depends on something other than (bucket, key) and a fixed hash function ("+bad+"): a new process over the same directories cannot find the records written by the previous one")
 	}
 	if run := mustFunc(r, "cmd.run"); run != nil {
+		r.Rule("R15.9", "in the command, a metadata path flag that was given is always used: the FsPath call on it is guarded by nothing but its own presence test, the -backend selection and earlier error checks (a heuristic that sometimes ignores the flag leaves metadata in process memory)")
 		n := 0
 		core.Instrs(run, func(in ssa.Instruction) {
 			c, ok := in.(*ssa.Call)
@@ -601,6 +602,43 @@ func rule157(r *core.Run) {
 				}
 			}
 			r.Check(bad == "", "R15.7", key("cmd.run", "flag guarded by itself", strings.TrimPrefix(used[0], "field:cmd.fakeS3Flags.")), pos(r, c), "path flag used under a test of the same flag", "the path flag "+used[0]+" is used under a test of a different flag ("+bad+"): the option is silently ignored and the data does not go where it was configured")
+			// a metadata path that was given is honoured: assuming every presence test of the flag says
+			// "given", no backend constructor is reachable without having passed this FsPath call
+			if strings.HasSuffix(used[0], "Meta") {
+				assume := map[ssa.Value]bool{}
+				core.Instrs(run, func(x ssa.Instruction) {
+					b, ok := x.(*ssa.BinOp)
+					if !ok || (b.Op != token.EQL && b.Op != token.NEQ) || !isConstString(b.X, b.Y) {
+						return
+					}
+					k, _ := core.ConstString(b.Y)
+					other := b.X
+					if _, isK := b.X.(*ssa.Const); isK {
+						k, _ = core.ConstString(b.X)
+						other = b.Y
+					}
+					if k != "" || !r.P.SliceOf(other, core.SliceOpts{Depth: -1}).Has(used[0]) {
+						return
+					}
+					assume[b] = b.Op == token.NEQ
+				})
+				ctor := "s3afero.MultiBucket"
+				if strings.Contains(used[0], "direct") {
+					ctor = "s3afero.SingleBucket"
+				}
+				skipped := ""
+				core.Instrs(run, func(x ssa.Instruction) {
+					cc, ok := x.(*ssa.Call)
+					if !ok || r.P.CalleeName(cc) != ctor {
+						return
+					}
+					if core.ReachableFromEntryAssumingAvoiding(cc, assume, func(y ssa.Instruction) bool { return y == ssa.Instruction(c) }) {
+						skipped = pos(r, cc)
+					}
+				})
+				r.Check(skipped == "" && len(assume) > 0, "R15.9", key("cmd.run", "metadata path honoured whenever given", strings.TrimPrefix(used[0], "field:cmd.fakeS3Flags.")), pos(r, c), sprintf("with the flag given, %s is reached only through FsPath(flag)", ctor),
+					"with "+used[0]+" given, the backend can still be constructed (at "+skipped+") without the metadata filesystem having been opened from it: under some further condition the flag is ignored, metadata stays in process memory and is gone after a restart")
+			}
 		})
 		if n < 4 {
 			r.Unresolved("R15.7: %d FsPath(flag) calls in cmd.run (expected 4)", n)
@@ -764,4 +802,14 @@ func createdExclusivelyHere(r *core.Run, fn *ssa.Function, path ssa.Value) bool 
 		}
 	})
 	return found
+}
+
+// isConstString: one of the two operands is a string constant.
+func isConstString(a, b ssa.Value) bool {
+	for _, v := range []ssa.Value{a, b} {
+		if k, ok := v.(*ssa.Const); ok && k.Value != nil && k.Value.Kind() == constant.String {
+			return true
+		}
+	}
+	return false
 }
